@@ -4,6 +4,7 @@ package c02
 import (
 	"fmt"
 	"math"
+	"os"
 	"strings"
 	"testing"
 
@@ -89,6 +90,7 @@ func run(c Case) (pbt.Outcome, error) {
 		})
 	}
 	res := s.Run()
+	lastOptions = res.Options
 	tally.VerifSetHooks(nil)
 	log.OnCall = nil
 	for _, p := range res.Panics {
@@ -215,5 +217,41 @@ func TestC02(t *testing.T) {
 		ID: "C02", Name: "sched",
 		Rule: "cooperative-scheduler mode: rapid generates 1..2 gauges each with one updater thread (1..6 values from hostile float64 bit patterns: NaN payloads, +-Inf, -0, subnormals, raw bits), 1..3 reporter threads x 1..3 modelled ticker passes, plain/cached, AND the schedule (<=120 choices at the yield points between the two stores of Update, between swap and load of the report, and at the reporter call, i.e. between load and delivery). Then a sequential pass and a second one that must be silent. Oracle over the ordered log: every delivered value is bit-identical to a value whose Update had started; deliveries never outnumber started updates; the first pass starting after the last Update returned leaves the most recent delivered value equal to the last update, as does the end of the history; no re-delivery without update. Non-trivial: a preempted Update store/store, swap/load or load/deliver window. Distinct: FNV-64 of program+schedule JSON.",
 		Gen:  gen, Run: run, Retries: 10,
+	})
+}
+
+// ---------------------------------------------------------------- bounded-exhaustive micro-scenario
+
+var lastOptions []int
+
+func enumBound() int {
+	if os.Getenv("VERIF_TIER") == "thorough" {
+		return 5
+	}
+	return 3
+}
+
+// TestExhaustive enumerates EVERY schedule with at most 3 (quick) / 5 (thorough) preemptions of
+// deterministic micro-scenarios: one gauge on the root (shard count 1), one updater doing
+// Update(1), Update(2), two reporter threads doing one modelled pass each; plain and cached.
+func TestExhaustive(t *testing.T) {
+	prop := pbt.Prop[Case]{
+		ID: "C02", Name: "exhaustive",
+		Rule: "bounded-exhaustive mode: ALL schedules with at most 3 (quick) / 5 (thorough) non-default scheduler choices (preemptions) of fixed deterministic micro-scenarios {one gauge on the root, shard count 1, one updater thread doing Update(1), Update(2), two reporter threads doing one modelled pass each; plain and cached}, enumerated depth-first over the verif yield points; same oracle as the generated mode. Non-trivial: an Update store/store, swap/load or load/deliver window was preempted.",
+		Run:  run,
+	}
+	pbt.MainEnum(t, prop, func(emit func(c Case) bool) bool {
+		all := true
+		for _, cached := range []bool{false, true} {
+			base := Case{Cached: cached, Updates: [][]pbt.F{{pbt.FOf(1), pbt.FOf(2)}}, Passes: []int{1, 1}}
+			_, ex := sched.Enumerate(enumBound(), 3000000, func(prefix []int) ([]int, bool) {
+				c := base
+				c.Sched = append([]int(nil), prefix...)
+				ok := emit(c)
+				return lastOptions, ok
+			})
+			all = all && ex
+		}
+		return all
 	})
 }
